@@ -500,3 +500,238 @@ Proof.
   assert (0 <= Z.of_N p * Z.of_N ns)%Z by nia. lia.
 Qed.
 Print Assumptions mul_f32_bound_simple.
+
+(* ---- Stage 3: one update step against the RFC 6298 fixed-point reference (Agent/Monitors.v).
+   Units: the reference works in 2^-16 ns (fx x = 65536 x); es, ev are error bounds in those units. *)
+From Rustun Require Import Agent.Rto Agent.Model Agent.Monitors.
+Local Open Scope Z_scope.
+Notation ZN := Z.of_N.
+
+Lemma absdiffN_Z a b : ZN (absdiffN a b) = Z.abs (ZN a - ZN b).
+Proof. unfold absdiffN. destruct (N.ltb_spec a b); lia. Qed.
+Lemma absdiff_Z a b : ZN (absdiff a b) = Z.abs (ZN a - ZN b).
+Proof. unfold absdiff. destruct (N.ltb_spec a b); lia. Qed.
+Lemma fx_Z x : ZN (fx x) = 65536 * ZN x.
+Proof. unfold fx. lia. Qed.
+
+(* eps = (2^23 + 1) / 2^45 = 2^-22 + 2^-45 *)
+Definition E1 : Z := 8388609.
+Definition P45 : Z := 35184372088832.
+
+Lemma mul_bound_Z ns c p q : cst c p q ->
+  P45 * Z.abs (ZN q * ZN (mul_f32 ns c) - ZN p * ZN ns) <= E1 * (ZN p * ZN ns) + P45 / 2 * ZN q.
+Proof. intros C. exact (mul_f32_bound ns c p q C). Qed.
+
+Lemma update_later st r : rc_srtt st <> 0%N ->
+  rtt_update st r =
+  let rttvar := (mul_f32 (rc_rttvar st) c_075 + mul_f32 (absdiffN (rc_srtt st) r) c_025)%N in
+  let srtt := (mul_f32 (rc_srtt st) c_0875 + mul_f32 r c_0125)%N in
+  {| rc_rto := (srtt + N.max (rc_gran st) (mul_f32 rttvar c_4))%N; rc_srtt := srtt; rc_rttvar := rttvar;
+     rc_gran := rc_gran st; rc_conf := rc_conf st |}.
+Proof. intros H. unfold rtt_update. destruct (N.eqb_spec (rc_srtt st) 0); [contradiction|reflexivity]. Qed.
+
+Definition ref_S' (S r:N) : N := ((7 * S + fx r) / 8)%N.
+Definition ref_V' (S V r:N) : N := ((3 * V + absdiff S (fx r)) / 4)%N.
+Lemma ref_step S V r : rfc6298_update (Some (S, V)) (fx r) = Some (ref_S' S r, ref_V' S V r).
+Proof. reflexivity. Qed.
+
+(* es' <= 7/8 (1+eps) es + eps (7 S + fx r)/8 + 1 ns + 1 unit *)
+Theorem step_srtt st r S es : rc_srtt st <> 0%N ->
+  Z.abs (65536 * ZN (rc_srtt st) - ZN S) <= es ->
+  8 * P45 * Z.abs (65536 * ZN (rc_srtt (rtt_update st r)) - ZN (ref_S' S r))
+  <= 7 * (P45 + E1) * es + E1 * (7 * ZN S + 65536 * ZN r) + 8 * P45 * (65536 + 1).
+Proof.
+  intros Hs0 Hes. rewrite (update_later st r Hs0). cbv zeta. cbn [rc_srtt].
+  pose proof (mul_bound_Z (rc_srtt st) _ _ _ cst_0875) as B1.
+  pose proof (mul_bound_Z r _ _ _ cst_0125) as B2.
+  set (M1 := mul_f32 (rc_srtt st) c_0875) in *. set (M2 := mul_f32 r c_0125) in *.
+  unfold ref_S'. pose proof (N.div_mod (7 * S + fx r) 8 ltac:(lia)) as D. pose proof (N.mod_lt (7 * S + fx r) 8 ltac:(lia)) as L.
+  set (Q := ((7 * S + fx r) / 8)%N) in *. set (R := ((7 * S + fx r) mod 8)%N) in *. unfold fx in D.
+  unfold E1, P45 in *. change (35184372088832 / 2) with 17592186044416 in *.
+  rewrite N2Z.inj_add. lia.
+Qed.
+
+(* ev' <= 3/4 (1+eps) ev + 1/4 (1+eps) es + eps (3 V + |S - fx r|)/4 + 1 ns + 1 unit *)
+Theorem step_rttvar st r S V es ev : rc_srtt st <> 0%N ->
+  Z.abs (65536 * ZN (rc_srtt st) - ZN S) <= es -> Z.abs (65536 * ZN (rc_rttvar st) - ZN V) <= ev ->
+  4 * P45 * Z.abs (65536 * ZN (rc_rttvar (rtt_update st r)) - ZN (ref_V' S V r))
+  <= 3 * (P45 + E1) * ev + (P45 + E1) * es + E1 * (3 * ZN V + Z.abs (ZN S - 65536 * ZN r)) + 4 * P45 * (65536 + 1).
+Proof.
+  intros Hs0 Hes Hev. rewrite (update_later st r Hs0). cbv zeta. cbn [rc_rttvar].
+  pose proof (mul_bound_Z (rc_rttvar st) _ _ _ cst_075) as B1.
+  pose proof (mul_bound_Z (absdiffN (rc_srtt st) r) _ _ _ cst_025) as B2.
+  set (M1 := mul_f32 (rc_rttvar st) c_075) in *. set (M2 := mul_f32 (absdiffN (rc_srtt st) r) c_025) in *.
+  rewrite absdiffN_Z in B2.
+  unfold ref_V'. pose proof (N.div_mod (3 * V + absdiff S (fx r)) 4 ltac:(lia)) as D.
+  pose proof (N.mod_lt (3 * V + absdiff S (fx r)) 4 ltac:(lia)) as L.
+  set (Q := ((3 * V + absdiff S (fx r)) / 4)%N) in *. set (R := ((3 * V + absdiff S (fx r)) mod 4)%N) in *.
+  apply (f_equal ZN) in D. rewrite !N2Z.inj_add, !N2Z.inj_mul, absdiff_Z, fx_Z in D.
+  unfold E1, P45 in *. change (35184372088832 / 2) with 17592186044416 in *.
+  rewrite N2Z.inj_add. lia.
+Qed.
+
+(* the interval: |fx rto' - RTO'| <= es' + 4 (1+eps) ev' + 4 eps V' + 1/2 ns, for any bounds es', ev' of the new state
+   against any reference state S', V' *)
+Theorem step_rto st r c S' V' es' ev' : rc_srtt st <> 0%N -> cc_gran c = rc_gran st ->
+  Z.abs (65536 * ZN (rc_srtt (rtt_update st r)) - ZN S') <= es' ->
+  Z.abs (65536 * ZN (rc_rttvar (rtt_update st r)) - ZN V') <= ev' ->
+  P45 * Z.abs (65536 * ZN (rc_rto (rtt_update st r)) - ZN (rfc6298_rto c (Some (S', V'))))
+  <= P45 * es' + 4 * (P45 + E1) * ev' + 4 * E1 * ZN V' + P45 * 32768.
+Proof.
+  intros Hs0 HG. cbn [rfc6298_rto]. rewrite HG. rewrite (update_later st r Hs0). cbv zeta.
+  cbn [rc_srtt rc_rttvar rc_rto].
+  set (s' := (mul_f32 (rc_srtt st) c_0875 + mul_f32 r c_0125)%N).
+  set (v' := (mul_f32 (rc_rttvar st) c_075 + mul_f32 (absdiffN (rc_srtt st) r) c_025)%N).
+  intros H1 H2. pose proof (mul_bound_Z v' _ _ _ cst_4) as B.
+  set (M := mul_f32 v' c_4) in *. clearbody M s' v'. unfold fx.
+  unfold E1, P45 in *. change (35184372088832 / 2) with 17592186044416 in *. lia.
+Qed.
+Print Assumptions step_srtt. Print Assumptions step_rttvar. Print Assumptions step_rto.
+
+(* ---- Stage 5: the smoothed RTT never becomes 0 again (so the first-sample branch is taken once per reset) *)
+Theorem srtt_nonzero st r : (5 <= r)%N -> rc_srtt (rtt_update st r) <> 0%N.
+Proof.
+  intros Hr. unfold rtt_update. destruct (N.eqb_spec (rc_srtt st) 0) as [E|E]; cbn [rc_srtt]; [lia|].
+  pose proof (mul_bound_Z r _ _ _ cst_0125) as B. set (M := mul_f32 r c_0125) in *. clearbody M.
+  unfold E1, P45 in B. change (35184372088832 / 2) with 17592186044416 in B. lia.
+Qed.
+Print Assumptions srtt_nonzero.
+
+(* ---- Stage 4: whole sample sequences.  Generic part: any invariant of the error recurrences of Stage 3 that
+   implies the tolerance gives the global statement. *)
+Definition run (st:rtt_calc) (rs:list N) : rtt_calc := fold_left rtt_update rs st.
+Definition ref_run (est:option (N * N)) (rs:list N) : option (N * N) := fold_left rfc6298_update (map fx rs) est.
+
+Section Global.
+  Variables LO HI : N.
+  Hypothesis LO5 : (5 <= LO)%N.
+  (* Inv S V es ev : reference state (units 2^-16 ns) and bounds of the errors of srtt and rttvar *)
+  Variable Inv : Z -> Z -> Z -> Z -> Prop.
+  Hypothesis Inv_init : forall r, ZN LO <= r <= ZN HI -> Inv (65536 * r) (32768 * r) 0 32768.
+  Hypothesis Inv_mono : forall S V es ev es' ev', Inv S V es ev -> 0 <= es' <= es -> 0 <= ev' <= ev -> Inv S V es' ev'.
+  Hypothesis Inv_step : forall S V es ev r S' V' es' ev',
+    Inv S V es ev -> ZN LO <= r <= ZN HI -> 0 <= es -> 0 <= ev ->
+    8 * S' <= 7 * S + 65536 * r < 8 * S' + 8 ->
+    4 * V' <= 3 * V + Z.abs (S - 65536 * r) < 4 * V' + 4 ->
+    0 <= es' -> 8 * P45 * es' <= 7 * (P45 + E1) * es + E1 * (7 * S + 65536 * r) + 8 * P45 * (65536 + 1) ->
+    0 <= ev' -> 4 * P45 * ev' <= 3 * (P45 + E1) * ev + (P45 + E1) * es + E1 * (3 * V + Z.abs (S - 65536 * r)) + 4 * P45 * (65536 + 1) ->
+    Inv S' V' es' ev'.
+  Hypothesis Inv_final : forall S V es ev T, Inv S V es ev -> 0 <= es -> 0 <= ev -> 0 <= S -> 0 <= V ->
+    100000 * T <= S + 4 * V < 100000 * T + 100000 ->
+    P45 * es + 4 * (P45 + E1) * ev + 4 * E1 * V + P45 * 32768 <= P45 * (T + 65536000).
+
+  Variables (c : ccfg) (rto gran : N).
+  Hypothesis Hgran : cc_gran c = gran.
+  Hypothesis Hrto : cc_rto c = rto.
+
+  (* the state after at least one sample *)
+  Definition good (st:rtt_calc) (est:option (N * N)) : Prop :=
+    exists S V, est = Some (S, V) /\ rc_srtt st <> 0%N /\ rc_gran st = gran /\
+      Inv (ZN S) (ZN V) (Z.abs (65536 * ZN (rc_srtt st) - ZN S)) (Z.abs (65536 * ZN (rc_rttvar st) - ZN V)) /\
+      within_tolerance (fx (rc_rto st)) (rfc6298_rto c est) = true.
+
+  Lemma tol_Z obs ex : within_tolerance obs ex = true <->
+    Z.abs (ZN obs - ZN ex) <= ZN ex / 100000 + 65536000.
+  Proof.
+    unfold within_tolerance. rewrite N.leb_le. unfold fx.
+    pose proof (absdiff_Z obs ex) as AD.
+    assert (X : ZN (ex / 100000 + 1000 * 65536) = ZN ex / 100000 + 65536000).
+    { rewrite N2Z.inj_add, N2Z.inj_div. reflexivity. }
+    split; intros H; lia.
+  Qed.
+
+  Lemma good_first r st : (LO <= r <= HI)%N -> rc_srtt st = 0%N -> rc_gran st = gran ->
+    good (rtt_update st r) (rfc6298_update None (fx r)).
+  Proof.
+    intros Hr H0 HG. unfold rtt_update. rewrite H0, N.eqb_refl. cbn [rfc6298_update].
+    exists (fx r), (fx r / 2)%N. split; [reflexivity|]. cbn [rc_srtt rc_rttvar rc_gran rc_rto].
+    assert (EV : (fx r / 2 = 32768 * r)%N).
+    { unfold fx. replace (r * 65536)%N with (32768 * r * 2)%N by lia. apply N.div_mul. lia. }
+    pose proof (N.div_mod r 2 ltac:(lia)) as D. pose proof (N.mod_lt r 2 ltac:(lia)) as L.
+    set (h := (r / 2)%N) in *. set (b := (r mod 2)%N) in *.
+    split; [lia|]. split; [exact HG|]. split.
+    - rewrite EV. unfold fx.
+      replace (Z.abs (65536 * ZN r - ZN (r * 65536))) with 0 by lia.
+      assert (X : Z.abs (65536 * ZN h - ZN (32768 * r)) <= 32768) by lia.
+      pose proof (Inv_init (ZN r) ltac:(lia)) as I.
+      replace (ZN (r * 65536)) with (65536 * ZN r) by lia. replace (ZN (32768 * r)) with (32768 * ZN r) by lia.
+      eapply Inv_mono; [exact I|lia|lia].
+    - apply tol_Z. cbn [rfc6298_rto]. rewrite Hgran, HG, EV. unfold fx. clearbody h b.
+      assert (0 <= ZN (r * 65536 + N.max (gran * 65536) (4 * (32768 * r))) / 100000) by (apply Z.div_pos; lia). lia.
+  Qed.
+
+  Lemma good_step st est r : (LO <= r <= HI)%N -> good st est -> good (rtt_update st r) (rfc6298_update est (fx r)).
+  Proof.
+    intros Hr (S & V & -> & Hs0 & HG & I & _).
+    pose proof (step_srtt st r S _ Hs0 (Z.le_refl _)) as B1.
+    pose proof (step_rttvar st r S V _ _ Hs0 (Z.le_refl _) (Z.le_refl _)) as B2.
+    pose proof (step_rto st r c (ref_S' S r) (ref_V' S V r) _ _ Hs0 ltac:(rewrite Hgran, HG; reflexivity) (Z.le_refl _) (Z.le_refl _)) as B3.
+    rewrite ref_step. cbn [rfc6298_rto] in B3 |- *. unfold ref_S', ref_V' in *.
+    set (S' := ((7 * S + fx r) / 8)%N) in *. set (V' := ((3 * V + absdiff S (fx r)) / 4)%N) in *.
+    assert (DS : 8 * ZN S' <= 7 * ZN S + 65536 * ZN r < 8 * ZN S' + 8).
+    { subst S'. pose proof (N.div_mod (7 * S + fx r) 8 ltac:(lia)) as D. pose proof (N.mod_lt (7 * S + fx r) 8 ltac:(lia)) as L.
+      unfold fx in *. lia. }
+    assert (DV : 4 * ZN V' <= 3 * ZN V + Z.abs (ZN S - 65536 * ZN r) < 4 * ZN V' + 4).
+    { subst V'. pose proof (N.div_mod (3 * V + absdiff S (fx r)) 4 ltac:(lia)) as D.
+      pose proof (N.mod_lt (3 * V + absdiff S (fx r)) 4 ltac:(lia)) as L.
+      apply (f_equal ZN) in D. rewrite !N2Z.inj_add, !N2Z.inj_mul, absdiff_Z, fx_Z in D. lia. }
+    clearbody S' V'.
+    set (st' := rtt_update st r) in *.
+    assert (HG' : rc_gran st' = gran).
+    { subst st'. unfold rtt_update. destruct (rc_srtt st =? 0)%N; exact HG. }
+    assert (Hs' : rc_srtt st' <> 0%N) by (apply srtt_nonzero; lia).
+    set (es := Z.abs (65536 * ZN (rc_srtt st) - ZN S)) in *. set (ev := Z.abs (65536 * ZN (rc_rttvar st) - ZN V)) in *.
+    set (es' := Z.abs (65536 * ZN (rc_srtt st') - ZN S')) in *. set (ev' := Z.abs (65536 * ZN (rc_rttvar st') - ZN V')) in *.
+    assert (I' : Inv (ZN S') (ZN V') es' ev').
+    { apply (Inv_step (ZN S) (ZN V) es ev (ZN r)); try assumption; try lia; subst es ev es' ev'; lia. }
+    exists S', V'. repeat split; try assumption.
+    apply tol_Z. cbn [rfc6298_rto]. rewrite fx_Z.
+    set (RTO := (S' + N.max (fx (cc_gran c)) (4 * V'))%N) in *.
+    pose proof (Z.div_mod (ZN S' + 4 * ZN V') 100000 ltac:(lia)) as D. pose proof (Z.mod_pos_bound (ZN S' + 4 * ZN V') 100000 ltac:(lia)) as L.
+    pose proof (Inv_final (ZN S') (ZN V') es' ev' ((ZN S' + 4 * ZN V') / 100000) I' ltac:(subst es'; lia) ltac:(subst ev'; lia)
+                  ltac:(lia) ltac:(lia) ltac:(lia)) as F.
+    assert (MONO : (ZN S' + 4 * ZN V') / 100000 <= ZN RTO / 100000) by (apply Z.div_le_mono; subst RTO; lia).
+    unfold P45, E1 in *. lia.
+  Qed.
+
+  Definition fresh (st:rtt_calc) : Prop := rc_srtt st = 0%N /\ rc_gran st = gran /\ rc_rto st = rto.
+
+  Lemma run_good rs : forall st est, (forall r, In r rs -> (LO <= r <= HI)%N) -> good st est -> good (run st rs) (ref_run est rs).
+  Proof.
+    induction rs as [|r rs IH]; intros st est Hrs G; [exact G|].
+    cbn [run ref_run fold_left map]. apply IH; [intros; apply Hrs; right; assumption|].
+    apply good_step; [apply Hrs; left; reflexivity|exact G].
+  Qed.
+
+  Theorem global_generic rs : (forall r, In r rs -> (LO <= r <= HI)%N) ->
+    within_tolerance (fx (rc_rto (run (rtt_new rto gran) rs))) (rfc6298_rto c (ref_run None rs)) = true.
+  Proof.
+    intros Hrs. destruct rs as [|r rs].
+    - cbn. rewrite Hrto. apply tol_Z. assert (0 <= ZN (fx rto) / 100000) by (apply Z.div_pos; lia). lia.
+    - cbn [run ref_run fold_left map].
+      assert (G : good (rtt_update (rtt_new rto gran) r) (rfc6298_update None (fx r))).
+      { apply good_first; [apply Hrs; left; reflexivity|reflexivity|reflexivity]. }
+      destruct (run_good rs _ _ ltac:(intros; apply Hrs; right; assumption) G) as (S & V & E & _ & _ & _ & T).
+      exact T.
+  Qed.
+End Global.
+
+
+(* ---- Stage 4, first instance: constant error bounds.  For samples of 1 ms .. 70 ms the errors of srtt and rttvar stay
+   below B0, C0 (about 142 ns and 213 ns) whatever the sequence. *)
+Definition crude_B0 : Z := 9274313.
+Definition crude_C0 : Z := 13911474.
+Definition crude_Inv (S V es ev:Z) : Prop :=
+  65536 * 1000000 <= S <= 65536 * 70000000 /\ 0 <= V <= 65536 * 70000000 /\ es <= crude_B0 /\ ev <= crude_C0.
+
+Theorem global_1ms_70ms c rto gran rs : cc_gran c = gran -> cc_rto c = rto ->
+  (forall r, In r rs -> (1000000 <= r <= 70000000)%N) ->
+  within_tolerance (fx (rc_rto (run (rtt_new rto gran) rs))) (rfc6298_rto c (ref_run None rs)) = true.
+Proof.
+  intros HG HR. apply (global_generic 1000000 70000000 ltac:(lia) crude_Inv); try assumption.
+  - intros r Hr. unfold crude_Inv, crude_B0, crude_C0. lia.
+  - unfold crude_Inv. intros. lia.
+  - unfold crude_Inv, crude_B0, crude_C0, P45, E1. intros S V es ev r S' V' es' ev' (HS & HV & He & Hv) Hr. intros. lia.
+  - unfold crude_Inv, crude_B0, crude_C0, P45, E1. intros S V es ev T (HS & HV & He & Hv). intros. lia.
+Qed.
+Print Assumptions global_1ms_70ms.
